@@ -24,10 +24,11 @@ STUB_GLOB = "FilterPattern::matches -> solver-chosen bool per pattern (glob engi
 for apply, skip in [(0, 0), (1, 0), (0, 1), (1, 1), (2, 0), (0, 2), (2, 2), (3, 3)]:
     for kind, fn in [("rule", "RuleMetadata::should_apply"), ("config", "Configuration::should_apply_rule")]:
         H("c20_%s_apply%d_skip%d" % (kind, apply, skip),
-          "c20_filters::c20_%s_apply%d_skip%d" % (kind, apply, skip), ["C20"], [fn],
+          "c20_filters::c20_rule_apply%d_skip%d::%s" % (apply, skip, kind), ["C20"], [fn],
           "%d apply + %d skip patterns (list lengths concrete), every combination of match results" % (apply, skip),
-          mode="full", timeout_s=300, stubs=[STUB_GLOB],
-          assumptions=["patterns are opaque values with an uninitialised glob (never read: matches is stubbed, values forgotten)"],
+          replay="c20_%s_apply%d_skip%d" % (kind, apply, skip), mode="full", timeout_s=300, stubs=[STUB_GLOB],
+          assumptions=["patterns are opaque values with an uninitialised glob (never read: matches is stubbed, values forgotten)",
+                       "native replay builds real glob patterns realising the solver's match answers for the path src/a.lua and runs the unstubbed code"],
           tier="quick" if (apply, skip) != (3, 3) else "thorough")
 
 # ---------------------------------------------------------------------------------------- C08 scalar
@@ -107,3 +108,23 @@ H("c08_ev_binary_arith", "c08_steps::c08_ev_binary_arith", ["C08", "C01"], BIN_F
 H("c08_ev_unary", "c08_steps::c08_ev_unary", ["C08", "C01"], ["Evaluator::evaluate_unary", "LuaValue::length", "LuaValue::is_truthy"],
   "3 operators x child nil/false/true/any f64/string (kind)/table/function, known or Unknown", mode="lean", timeout_s=900,
   replay="ev_unary", stubs=[EVAL_STUB, NUMCO_STUB], assumptions=["unary minus on strings excluded (dec2flt)", NATIVE_NOTE])
+
+# ---------------------------------------------------------------------------------------- C02 precedence
+PREC_NOTE = "reference::priority = operator priorities of lparser.c / Luau Parser.cpp; regrouping decided by precedence climbing (subexpr(limit))"
+for group, shapes in [("binary", "{leaf, x INNER y (16 inner operators), parenthese}"), ("unary", "{unary (3 operators), x INNER -y}"),
+                      ("if", "{if-expression, x INNER if-expression, unary if-expression}")]:
+    H("c02_prec_left_" + group, "c02_prec::c02_prec_left_" + group, ["C02"],
+      ["BinaryOperator::left_needs_parentheses", "BinaryOperator::precedes", "BinaryOperator::get_precedence", "binary::ends_with_if_expression",
+       "binary::ends_with_type_cast_to_type_name_without_type_parameters"],
+      "16 outer operators x left operand shapes " + shapes,
+      mode="lean", timeout_s=900, mem_gb=16, replay="prec_left_" + group, assumptions=[PREC_NOTE, "type casts as operands are outside the claim"])
+for group, shapes in [("binary", "{leaf, a INNER b (16 inner operators), parenthese}"), ("unary", "{unary (3 operators), a INNER -b}"),
+                      ("if", "{if-expression, a INNER if-expression, unary if-expression}")]:
+    H("c02_prec_right_" + group, "c02_prec::c02_prec_right_" + group, ["C02"],
+      ["BinaryOperator::right_needs_parentheses", "BinaryOperator::precedes", "BinaryOperator::get_precedence"],
+      "16 outer operators x right operand shapes " + shapes, mode="lean", timeout_s=900, mem_gb=16,
+      replay="prec_right_" + group, assumptions=[PREC_NOTE])
+H("c02_operator_tables", "c02_prec::c02_operator_tables", ["C02"],
+  ["BinaryOperator::precedes_unary_expression", "BinaryOperator::is_left_associative", "BinaryOperator::is_right_associative",
+   "BinaryOperator::to_str", "BinaryOperator::precedes"],
+  "all 16 operators, all 256 operator pairs", mode="lean", timeout_s=600, replay="operator_tables", assumptions=[PREC_NOTE])
